@@ -25,7 +25,8 @@ ASSUMPTIONS = ["tokio mpsc channels are FIFO", "a `dyn HandlerErased` call runs 
 
 SR = "server_request::"
 TWIN = (("handle_view", "HANDLE"), ("handle_with_ctx", "HANDLE"),
-        ("message::create_error_response_unstamped_view", "ERR"), ("message::create_error_response_like", "ERR"))
+        ("message::create_error_response_unstamped_view", "ERR"), ("message::create_error_response_like", "ERR"),
+        ("{view: ", "{REQ: "), ("{req: ", "{REQ: "), ("arg1.view", "arg1.REQ"), ("arg1.req", "arg1.REQ"))
 
 ROUTE_TABLE = {
     # code -> guard predicate description
@@ -119,8 +120,19 @@ def run(facts, R):
             if not is_none and "is Err" in " ".join(g):
                 R.check("to_error_code(" in v and "as Err).0" in v, "error-code-table", fn, "handler error -> err.to_error_code()",
                         "handler errors are reported as %s" % v[:200], b.span, "error response built from err.to_error_code(), err.to_string()")
+        # `result.unwrap_or_else(|err| error response)` folds the Ok and Err rows into one: the closure is the Err row
+        for c in facts.children(fn):
+            cv = Sym(c).local(0)
+            ctxt = render(cv)
+            for a, bname in TWIN:
+                ctxt = ctxt.replace(a, bname)
+            norm.append("closure => " + ctxt)
+            if any("unwrap_or_else" in v for g, v in rws):
+                R.check("to_error_code(" in render(cv) and is_call(cv, "create_error_response_unstamped_view", "create_error_response_like"), "error-code-table", c.path,
+                        "handler error -> err.to_error_code()", "handler errors are reported as %s" % render(cv)[:200], c.span, "error response built from err.to_error_code(), err.to_string()")
         drows[fn] = sorted(norm)
-        R.check(len(rws) == 3, "response-count", fn, "three rows", "dispatch has %d result rows" % len(rws), b.span)
+        folded = any("unwrap_or_else" in v for g, v in rws)
+        R.check(len(rws) == (2 if folded else 3), "response-count", fn, "three rows", "dispatch has %d result rows" % len(rws), b.span)
     R.check(drows[SR + "dispatch_view"] == drows[SR + "dispatch"], "transport-twins", "<crate>", "dispatch == dispatch_view under twin renaming",
             "owned and borrowed dispatch differ:\n  view : %s\n  owned: %s" % (drows[SR + "dispatch_view"], drows[SR + "dispatch"]), None,
             "3 identical rows")
